@@ -117,3 +117,72 @@ Definition vstep (guarded : bool) (fee : Z) (s : stake) (o : vop) : stake :=
 
 Definition vrun (guarded : bool) (fee : Z) (s : stake) (ops : list vop) : stake :=
   fold_left (vstep guarded fee) ops s.
+
+(* ---------------------------------------------------------------- votes with lock times, block by block
+
+   dpos/state/state.go: processTransactions (transactions of the block, then the
+   expiry sweep over Producer.detailedDPoSV2Votes, everything committed at the
+   end), processVotingContent (DposV2), processRenewalVotingContent (the
+   LastRenewalDPoSV2Votes marker is written at once, the replacement of the vote
+   at commit), cleanExpiredDposV2Votes (a vote whose LockTime is below the block
+   height expires unless it was renewed in this very block).
+   One stake address, at most one of its transactions per block (the mempool
+   keeps one per stake address); a vote is (id, amount, lock time). *)
+
+Record lvote := { v_id : N; v_amt : Z; v_lock : Z }.
+Record vstate := { vs_rights : Z; vs_used : Z; vs_votes : list lvote }.
+
+Inductive btx :=
+| BStake (a : Z)
+| BVote (id : N) (amt : Z) (lock : Z)      (* one DposV2 vote *)
+| BRenew (id : N) (newlock : Z)            (* RenewalVoteVersion for the vote id *)
+| BReturn (others : list Z) (value : Z).
+
+Definition stake_of (s : vstate) : stake := {| rights := vs_rights s; used2 := vs_used s |}.
+
+(* the transaction of the block; returns the id renewed in this block, if any *)
+Definition apply_btx (fee h : Z) (s : vstate) (t : btx) : vstate * option N :=
+  match t with
+  | BStake a => ({| vs_rights := add64 (vs_rights s) a; vs_used := vs_used s; vs_votes := vs_votes s |}, None)
+  | BVote id amt lock =>
+      if vote_check true true (h <? lock) (stake_of s) [amt]
+      then ({| vs_rights := vs_rights s; vs_used := add64 (vs_used s) amt;
+               vs_votes := {| v_id := id; v_amt := amt; v_lock := lock |} :: vs_votes s |}, None)
+      else (s, None)
+  | BRenew id nl =>
+      if existsb (fun v => N.eqb (v_id v) id && (v_lock v <? nl)) (vs_votes s)
+      then ({| vs_rights := vs_rights s; vs_used := vs_used s;
+               vs_votes := map (fun v => if N.eqb (v_id v) id
+                                         then {| v_id := v_id v; v_amt := v_amt v; v_lock := nl |} else v)
+                               (vs_votes s) |}, Some id)
+      else (s, None)
+  | BReturn others value =>
+      if retvotes_check fee (stake_of s) others value
+      then ({| vs_rights := sub64 (vs_rights s) value; vs_used := vs_used s; vs_votes := vs_votes s |}, None)
+      else (s, None)
+  end.
+
+(* Does the sweep of block h remove v?  The sweep runs before the commit, i.e. it
+   sees a renewed vote with its old lock time and does not see a vote cast in
+   this block; since the renewed vote is skipped through the marker whatever its
+   lock time, and a vote cast in block h has lock > h, the same votes are
+   selected when the test is applied to the votes as they are after the
+   transaction, which is how it is written here. *)
+Definition expires (h : Z) (marker : option N) (v : lvote) : bool :=
+  (v_lock v <? h) && negb (match marker with Some m => N.eqb (v_id v) m | None => false end).
+
+Definition sweep (h : Z) (marker : option N) (s : vstate) : vstate :=
+  {| vs_rights := vs_rights s;
+     vs_used := fold_left (fun u v => sub64 u (v_amt v)) (filter (expires h marker) (vs_votes s)) (vs_used s);
+     vs_votes := filter (fun v => negb (expires h marker v)) (vs_votes s) |}.
+
+Definition bstep (fee : Z) (s : vstate) (b : Z * option btx) : vstate :=
+  let h := fst b in
+  match snd b with
+  | None => sweep h None s
+  | Some t => let r := apply_btx fee h s t in sweep h (snd r) (fst r)
+  end.
+
+Definition brun (fee : Z) (s : vstate) (bs : list (Z * option btx)) : vstate := fold_left (bstep fee) bs s.
+
+Definition locked_sum (l : list lvote) : Z := fold_right (fun v a => v_amt v + a) 0 l.
